@@ -27,6 +27,7 @@ type c15cOp struct {
 	Key int    `json:"key,omitempty"` // key index
 	Val int    `json:"v,omitempty"`   // value index
 	NV  bool   `json:"nv,omitempty"`  // ev: new value although the key had a life before
+	B   int    `json:"b,omitempty"`   // listen: 0 passive, 1 reads getValues() inside the callback, 2 registers a further listener from inside its first call
 }
 
 type c15cCase struct {
@@ -55,6 +56,7 @@ func c15cInterp(c c15cCase) (v kit.Verdict) {
 	tracked := map[string]string{} // keys the view is attributed to (exclusive: evicted keys are dropped)
 	last := map[string]string{}
 	var counts []*int
+	inCbDup := false
 	classes := map[string]bool{}
 	if c.Excl {
 		classes["exclusive"] = true
@@ -142,7 +144,29 @@ func c15cInterp(c c15cCase) (v kit.Verdict) {
 			}
 			n := new(int)
 			counts = append(counts, n)
-			ct.addListener(func() { *n++ })
+			switch o.B {
+			case 1:
+				// notifyChange calls the listeners after releasing the container lock: reading is safe
+				classes["listener-reads-values"] = true
+				ct.addListener(func() {
+					*n++
+					if _, dup := c15cSet(ct.getValues()); dup {
+						inCbDup = true
+					}
+				})
+			case 2:
+				classes["listener-adds-listener"] = true
+				extra := new(int)
+				ct.addListener(func() {
+					*n++
+					if *n == 1 {
+						counts = append(counts, extra)
+						ct.addListener(func() { *extra++ })
+					}
+				})
+			default:
+				ct.addListener(func() { *n++ })
+			}
 			continue
 		case "get":
 			// twice: the second call is served from the cached snapshot
@@ -161,6 +185,9 @@ func c15cInterp(c c15cCase) (v kit.Verdict) {
 					return v.Failf("%s: change listener %d did not run", what, j)
 				}
 			}
+		}
+		if inCbDup {
+			return v.Failf("%s: getValues() read from inside a change listener listed a value twice", what)
 		}
 		got, dup := c15cSet(ct.getValues())
 		if dup {
@@ -190,6 +217,8 @@ func c15cGen(rt *rapid.T) c15cCase {
 			o.NV = rapid.IntRange(0, 5).Draw(rt, "nv") == 0
 		case "readd", "redel":
 			o.Key = rapid.IntRange(0, 5).Draw(rt, "key")
+		case "listen":
+			o.B = rapid.IntRange(0, 2).Draw(rt, "behaviour")
 		}
 		c.Ops = append(c.Ops, o)
 	}
